@@ -54,6 +54,12 @@ P = {
  "C14": (True, "conc", "quiescence audit without any further cache call (VerifAudit: drain status idle, write buffer empty, weightedSize <= maximum, notifications delivered) over thousands of short trials with the default executor made countable; delays at the drain-protocol yield points",
    "Held on the explored trials: liveness is restated as a safety property of the quiescent state; all four drain states and both CAS failure paths are exercised (hook log).",
    "For-all-interleavings is sampled; VerifSetDefaultExecutor replaces the package default executor only to count its goroutines.", "4/C14"),
+ "C08": (True, "conc", "runtime monitor over loader entry/exit intervals and call results of concurrent bursts (single-flight overlap rule, waiter results, exactly-one refresh message, no in-flight record left, stall watchdog with goroutine dump); race detector",
+   "Held on the explored bursts of Get/BulkGet/Refresh/BulkRefresh over overlapping key sets with every loader outcome (value, error, ErrNotFound, panic, partial/extra bulk maps); pure-load bursts admit no overlap at all, mixed bursts admit an overlap only if a write or eviction activity can explain it.",
+   "Termination is decided as bounded progress (no call completes for 40 s = stall, with the goroutine dump as witness); refresh tasks whose own loader panics are not awaited.", "4/C08"),
+ "C09": (True, "conc", "loader-controlled scenario enumeration (load kind x write kind x write position, parked at the load.beforeInstall yield point) + jittered stress, oracle: a loaded value is never observed as current after an effective write called after the loader entry",
+   "Held on the explored scenarios and stress histories, except the recorded known finding D8 (a Set straddling the start of the load), which is reported from its deterministic witness only.",
+   "A load is taken to be in flight from its loader entry (the latest start a black box can see), so the oracle never demands more than the statement.", "4/C09"),
 }
 NOT_YET = {
  "C02": "check under construction in this session (concurrent engine)",
